@@ -1894,6 +1894,22 @@ def x20(e: Engine, rep: Report):
             rep.evaluations += 1
             out = []
             repeated_groups(items, False, out)
+            # groups nobody reads may repeat (validation-only patterns)
+            read, every = set(), False
+            for y in ast.walk(m.tree):
+                if isinstance(y, ast.Call) and \
+                        isinstance(y.func, ast.Attribute):
+                    if y.func.attr == 'group':
+                        for a in y.args:
+                            if isinstance(a, ast.Constant):
+                                read.add(a.value)
+                            else:
+                                every = True
+                    elif y.func.attr in ('groups', 'groupdict', 'findall',
+                                         'split', 'expand', 'sub', 'subn'):
+                        every = True
+            if not every:
+                out = [g0 for g0 in out if g0 in read]
             rep.check(not out, 'X20', '%s.%s' % (mn, name),
                       'no capture group of `%s` is repeated' % name,
                       'group %s of %s stands under a repetition: every '
